@@ -216,13 +216,23 @@ def ast_values(v):
     return getattr(v, "_ast_values", None)
 
 
-def member(v, d):
-    """v in [[d]] : True / False / None (no opinion)."""
+def _origin_class(x):
+    c = type(x)
+    return getattr(c, "__origin__", c) if _is_param_meta(c) else c
+
+
+def member(v, d, conservative=False):
+    """v in [[d]] : True / False / None (no opinion).
+
+    ``conservative=True`` is the reading in which a value is only known through a *recorded* precise type that
+    cannot express everything: an empty tuple / frozenset is recorded as the bare container (a member of the bare
+    and Any-parametrised forms only), and a frozenset whose elements have different classes is recorded with the
+    common unparametrised origin class of its elements."""
     k = d[0]
     if k == "any":
         return True
     if k == "union":
-        rs = [member(v, x) for x in d[1]]
+        rs = [member(v, x, conservative) for x in d[1]]
         if any(r is True for r in rs):
             return True
         if any(r is None for r in rs):
@@ -235,17 +245,27 @@ def member(v, d):
     if k == "tuple":
         if not isinstance(v, tuple) or len(v) != len(d[1]):
             return False
-        return _all(member(x, y) for x, y in zip(v, d[1]))
+        return _all(member(x, y, conservative) for x, y in zip(v, d[1]))
     if k == "vtuple":
         if not isinstance(v, tuple):
             return False
-        return _all(member(x, d[1]) for x in v)
+        if conservative and len(v) == 0:
+            return d[1][0] == "any"
+        return _all(member(x, d[1], conservative) for x in v)
     if k == "fset*":
         return isinstance(v, frozenset)
     if k == "fset":
         if not isinstance(v, frozenset):
             return False
-        return _all(member(x, d[1]) for x in sorted(v, key=id))
+        if conservative and len(v) == 0:
+            return d[1][0] == "any"
+        if conservative and len({type(x) for x in v}) > 1:
+            origins = {_origin_class(x) for x in v}
+            if len(origins) != 1:
+                return None
+            (o,) = origins
+            return sub(describe(o), d[1])
+        return _all(member(x, d[1], conservative) for x in sorted(v, key=id))
     if k == "gen":
         origin = d[1]
         if origin not in type(v).__mro__:
@@ -257,7 +277,7 @@ def member(v, d):
             return None
         if len(vals) != len(d[2]):
             return False
-        return _all(member(x, y) for x, y in zip(vals, d[2]))
+        return _all(member(x, y, conservative) for x, y in zip(vals, d[2]))
     raise ValueError(d)
 
 
